@@ -36,7 +36,7 @@ def worker(slot):
 ts = [threading.Thread(target=worker, args=(i + 1,)) for i in range(slots)]
 [t.start() for t in ts]
 [t.join() for t in ts]
-missed = [k for k, v in sorted(results.items()) if 'exit=1' not in v]
+missed = [k for k, v in sorted(results.items()) if 'exit=1 ' not in v]
 print('not caught:', missed)
 if not args:
     with open('/verif/seeded/RECHECK-final.log', 'w') as f:
